@@ -18,7 +18,7 @@ def primaryP (toks : List Tok) : Option (PyExpr × List Tok) := primaryF (knot (
 
 /-- a comma separated sequence up to (not including) the closing token -/
 def itemsP (mode : Mode) (closer : Tok) (toks : List Tok) : Option (List PyExpr × List Tok) :=
-  ((knot (parseFuel toks)).items mode closer [] false toks).map fun x => (x.1.1, x.2)
+  ((knot (parseFuel toks + 64)).items mode closer [] false toks).map fun x => (x.1.1, x.2)
 
 def augOp? (s : Str) : List (Str × Str) → Option Str
   | [] => none
@@ -291,7 +291,7 @@ def defOrClass : Nat → Nat → List PyExpr → List Tok → List Line → Opti
       | _ => none
 end
 
-def stmtFuel (lines : List Line) : Nat := 4 * lines.length + 8
+def stmtFuel (lines : List Line) : Nat := 8 * lines.length + 8
 
 /-- read a whole module (all lines at indentation 0) -/
 def pyParseS (lines : List Line) : Option (List PyStmt) :=
